@@ -198,9 +198,11 @@ def isSetPath : Op → Bool
   | .setPath _ _ _ => true
   | _ => false
 
-/-- the io key an operation claims; the path setter claims one only for a model that has a spec -/
+/-- the io key an operation claims; the path setter claims one only for a model that has a spec,
+a creation only for a model that is not closed -/
 def OpQ (st : St) (op : Op) (m : Nat) (p : String) : Prop :=
-  opKey op = some (m, p) ∧ (isSetPath op = true → ∃ σ ∈ st.specs, σ.group = m)
+  opKey op = some (m, p) ∧ (isSetPath op = true → ∃ σ ∈ st.specs, σ.group = m) ∧
+    (isSetPath op = false → st.closed.contains m = false)
 
 theorem strans_step (kw : List String) (st : St) (op : Op) :
     STrans (OpQ st op) (sp st) (sp (step kw st op)) := by
@@ -212,7 +214,11 @@ theorem strans_step (kw : List String) (st : St) (op : Op) :
   | newPandas o name path csv sheet data =>
     simp only; split
     · exact .refl _
-    · exact strans_newPandas kw st o name (pathKey path) csv sheet data ⟨rfl, fun h => by cases h⟩
+    · split
+      · exact .refl _
+      · rename_i hc
+        exact strans_newPandas kw st o name (normPath path) csv sheet data
+          ⟨rfl, ⟨fun h => (by cases h), fun _ => (by simpa using hc)⟩⟩
   | bind o name v =>
     simp only; split
     · exact .refl _
@@ -232,9 +238,9 @@ theorem strans_step (kw : List String) (st : St) (op : Op) :
   | setPath m v path =>
     simp only; split
     · exact .refl _
-    · refine strans_setPath st m v (pathKey path) (fun σ hσ => ?_)
+    · refine strans_setPath st m v (normPath path) (fun σ hσ => ?_)
       obtain ⟨h1, h2, _⟩ := getSpec_some hσ
-      rw [h2]; exact ⟨rfl, fun _ => ⟨σ, h1, h2⟩⟩
+      rw [h2]; exact ⟨rfl, ⟨fun _ => ⟨σ, h1, h2⟩, fun h => (by cases h)⟩⟩
   | delSpec m v =>
     simp only; split
     · exact .refl _
